@@ -28,7 +28,7 @@ MANIFEST = {
     "note": "Trusted: vlib/render.py for the V2000 subset the reader claims (no 'dd' mass differences, no S  SKP, alias text not starting with 'M  ').",
     "technique": "property-based differential/model-based testing with independent V2000 and V3000 renderers (Hypothesis, 16 shards) + Atheris in the thorough tier",
 }
-FUZZ = {"procs": 12, "runs": 20000, "timeout": 3000}
+FUZZ = {"procs": 12, "runs": 20000, "timeout": 1500}
 ASSUMPTIONS = ["'dd' mass-difference field always 0 (the reader documents that it ignores it)"]
 
 
